@@ -4,10 +4,13 @@ import XixiKV.Proofs.EngineBatch
 # Histories, part 1: the replay after a merge when batches were committed above the marker
 
 `MergeOutW` (`Proofs/EngineMerge/Out.lean`) demands that the files with id `≥ n` hold plain records
-only (`hiPlain`).  `MergeOutB` below replaces that by `hiFresh`: a record above the marker may carry
-a batch id, provided that id does not occur in any file below the marker.  (Then a sealing record
+only (`hiPlain`).  `MergeOutB` below drops that and demands instead `loSealed`: the replay of the
+files BELOW the marker leaves nothing parked (every batch below the marker is sealed — true whenever
+`Merge` runs, because `Merge` cannot run while a batch holds the DB lock).  Then a sealing record
 written after the merge can only seal records parked after the merge, and the two replays
-`files < n ++ files ≥ n` and `merged files ++ files ≥ n` treat the files `≥ n` alike.)
+`files < n ++ files ≥ n` and `merged files ++ files ≥ n` treat the files `≥ n` alike — whatever
+batch ids those files use (in particular ids that were already used below the marker: `NewBatch`
+builds a new snowflake node per batch, so two batches created in the same millisecond share an id).
 
 * `RRel` / `RRel.steps`: the two replays stay related record by record, parked records included;
 * `ValRel_mergedB`: the semantic core of C06 for `MergeOutB`;
@@ -177,11 +180,11 @@ theorem replayFrom_plain_pending (W : List (Record × Pos)) : ∀ (R : Replay), 
 
 /-! ## `MergeOutB`: what a successful `Merge` leaves behind, batches above the marker allowed -/
 
-/-- the batch id `id` does not occur in the files below the marker -/
-def FreshLo (g : GDir) (n id : Nat) : Prop := ∀ y ∈ lo g n, ∀ r ∈ y.2, r.batch ≠ id
+/-- nothing is parked after replaying `l`: every batch in `l` is sealed -/
+def NoPend (l : List (Record × Pos)) : Prop := ∀ id, pendingGet (replayLog l).pending id = []
 
-/-- `MergeOutW` with `hiPlain` weakened to `hiFresh`: a record in a file with id `≥ n` is plain or
-    carries a batch id that does not occur below the marker -/
+/-- `MergeOutW` without `hiPlain`, with `loSealed`: the files with id `≥ n` may hold anything the
+    engine writes (plain records, batches with any ids); below the marker every batch is sealed -/
 structure MergeOutB (w : World) (dir : String) (g : GDir) (n : Nat) (gm vis : GDir) : Prop where
   mdir : ∃ md, w.get (mergeDirName dir) = some md ∧ Matches md.data gm ∧ md.hint = some (hintBytes gm) ∧
     md.marker = some (markerBytes n gm.length)
@@ -190,12 +193,19 @@ structure MergeOutB (w : World) (dir : String) (g : GDir) (n : Nat) (gm vis : GD
   small : n < 2 ^ 32
   perm : vis.Perm (lo g n)
   live : (logOf gm).map (·.1) = ((logOf vis).filter (isLive (scanIndex g n))).map (fun x => plainOf x.1)
-  hiFresh : ∀ x ∈ hi g n, ∀ r ∈ x.2, r.batch = 0 ∨ FreshLo g n r.batch
+  loSealed : NoPend (logOf (lo g n))
   hiNe : ∃ x ∈ g, n ≤ x.1
 
+/-- `MergeOutW` (files `≥ n` plain) for a ghost directory whose whole log is sealed -/
 theorem MergeOutW.toB {w : World} {dir : String} {g : GDir} {n : Nat} {gm vis : GDir}
-    (h : MergeOutW w dir g n gm vis) : MergeOutB w dir g n gm vis :=
-  ⟨h.mdir, h.ids, h.count, h.small, h.perm, h.live, fun x hx r hr => Or.inl (h.hiPlain x hx r hr), h.hiNe⟩
+    (h : MergeOutW w dir g n gm vis) (hasc : AscIds g) (hnp : NoPend (logOf g)) : MergeOutB w dir g n gm vis := by
+  refine ⟨h.mdir, h.ids, h.count, h.small, h.perm, h.live, ?_, h.hiNe⟩
+  intro id
+  have hsplit : logOf g = logOf (lo g n) ++ logOf (hi g n) := by
+    rw [← Restart.logOf_append, lo_append_hi hasc]
+  have := hnp id
+  rw [hsplit, replayLog_eq, replayFrom_append, replayFrom_plain_pending _ _ (logOf_plain h.hiPlain)] at this
+  exact this
 
 theorem lo_lo (g : GDir) (n : Nat) : lo (lo g n ++ [(n, [])]) n = lo g n := by
   unfold lo
@@ -251,10 +261,12 @@ theorem MergeOutB.merged {w : World} {dir : String} {g : GDir} {n : Nat} {gm vis
   exact this
 
 /-- **the semantic core of C06 with batches above the marker**: replaying `merged files ++ files ≥ n`
-    relates, key by key, to replaying `files < n ++ files ≥ n` -/
+    relates, key by key, to replaying `files < n ++ files ≥ n`; and both replays park the same
+    entries under every batch id -/
 theorem ValRel_mergedB {w : World} {dir : String} {g : GDir} {n : Nat} {gm vis : GDir}
     (h : MergeOutB w dir g n gm vis) (hasc : AscIds g) (hrecs : ∀ x ∈ g, ∀ r ∈ x.2, RecOK r) :
-    ValRel (logOf g) (logOf (gm ++ hi g n)) (replayLog (logOf g)).index (replayLog (logOf (gm ++ hi g n))).index := by
+    ValRel (logOf g) (logOf (gm ++ hi g n)) (replayLog (logOf g)).index (replayLog (logOf (gm ++ hi g n))).index ∧
+    ∀ id, pendingGet (replayLog (logOf g)).pending id = pendingGet (replayLog (logOf (gm ++ hi g n))).pending id := by
   obtain ⟨hM, hcov1, hcov2⟩ := h.merged hasc hrecs
   obtain ⟨hg1, hg2⟩ := hM.get
   -- base: files < n against the merged files
@@ -271,25 +283,14 @@ theorem ValRel_mergedB {w : World} {dir : String} {g : GDir} {n : Nat} {gm vis :
       have := hg1 _ hm
       rw [show (plainOf r).key = r.key from rfl, hkey] at this
       exact this
-  let S : Nat → Prop := fun id => pendingGet (replayLog (logOf (lo g n))).pending id = []
   have hpend2 : (replayLog (logOf gm)).pending = [] := by
     rw [replayLog_eq, replayFrom_plain_pending _ _ (fun x hx => (hM.plain x hx).1)]
     rfl
-  have hrel0 : RRel S (logOf (lo g n)) (logOf gm) (replayLog (logOf (lo g n))) (replayLog (logOf gm)) :=
+  have hrel0 : RRel (fun _ => True) (logOf (lo g n)) (logOf gm) (replayLog (logOf (lo g n))) (replayLog (logOf gm)) :=
     ⟨hbase, replay_sorted _, replay_sorted _,
-      fun id (hid : pendingGet _ id = []) => by rw [hid, hpend2]; rfl,
-      fun id (hid : pendingGet _ id = []) x hx => by rw [hid] at hx; simp at hx⟩
-  have hW : ∀ x ∈ logOf (hi g n), x.1.batch = 0 ∨ S x.1.batch := by
-    intro x hx
-    obtain ⟨y, hy, hr⟩ := mem_logOf_record (r := x.1) (p := x.2) hx
-    rcases h.hiFresh y hy _ hr with h0 | hf
-    · exact Or.inl h0
-    · right
-      apply BatchP.fresh_of_unused
-      intro z hz
-      obtain ⟨y', hy', hr'⟩ := mem_logOf_record (r := z.1) (p := z.2) hz
-      exact hf y' hy' _ hr'
-  have hrel := hrel0.steps (logOf (hi g n)) hW
+      fun id _ => by rw [h.loSealed id, hpend2]; rfl,
+      fun id _ x hx => by rw [h.loSealed id] at hx; simp at hx⟩
+  have hrel := hrel0.steps (logOf (hi g n)) (fun _ _ => Or.inr trivial)
   have hsplit : logOf g = logOf (lo g n) ++ logOf (hi g n) := by
     rw [← Restart.logOf_append, lo_append_hi hasc]
   have e1 : replayLog (logOf g) = replayFrom (replayLog (logOf (lo g n))) (logOf (hi g n)) := by
@@ -297,7 +298,7 @@ theorem ValRel_mergedB {w : World} {dir : String} {g : GDir} {n : Nat} {gm vis :
   have e2 : replayLog (logOf (gm ++ hi g n)) = replayFrom (replayLog (logOf gm)) (logOf (hi g n)) := by
     rw [Restart.logOf_append, replayLog_eq, replayFrom_append]; rfl
   rw [e1, e2, Restart.logOf_append, hsplit]
-  exact hrel.val
+  exact ⟨hrel.val, fun id => hrel.pend id trivial⟩
 
 /-! ## the adopting `Open` for `MergeOutB` -/
 
